@@ -672,10 +672,12 @@ func (a *Assembler) closeConnection(conn *connection) {
 	}
 	conn.stream.ReassemblyComplete()
 	conn.closed = true
-	a.connPool.remove(conn)
 	for p := conn.first; p != nil; p = p.next {
 		a.pc.replace(p)
 	}
+	// Hand the connection object back last: once it is on the pool's free
+	// list another assembler may reuse (reset) it.
+	a.connPool.remove(conn)
 }
 
 // traverseConn traverses our doubly-linked list of pages for the correct
